@@ -439,16 +439,27 @@ def _simple_effects(chk, ctx) -> None:
 
 def _turn(chk, ctx) -> None:
     fi = ctx.sfi('turn_index')
-    order = []
-    for n in walk_no_nested(fi.node):
-        if isinstance(n, ast.If):
-            t = T.cond(n.test)
-            if t[0] == 'isnot':
-                other = [x for x in t[1] if x != ('const', None)][0]
-                if other[0] == 'self':
-                    order.append(other[1])
-    chk.ob('C03.turn', 'State.turn_index', order == ['stander_pat_or_discarder_index', 'actor_index', 'showdown_index'], fi.loc,
-           'whose turn: the drawing player, else the betting actor, else the player to show', got=order)
+    order = ['stander_pat_or_discarder_index', 'actor_index', 'showdown_index']
+    got = {}
+    for p in ctx.paths(fi):
+        if not p.returned:
+            continue
+        r = unversion(p.outcome[1])
+        cs = [unversion(c) for c in p.conds()]
+        got[T.show(r)] = cs
+    ok = True
+    for k, name in enumerate(order):
+        cs = got.get(f'self.{name}')
+        if cs is None:
+            ok = False
+            continue
+        for earlier in order[:k]:
+            ok &= T.cmp('Is', ('self', earlier), ('const', None)) in cs
+        ok &= T.cmp('IsNot', ('self', name), ('const', None)) in cs
+    none = got.get('None')
+    ok &= none is not None and all(T.cmp('Is', ('self', n), ('const', None)) in none for n in order)
+    chk.ob('C03.turn', 'State.turn_index', ok, fi.loc,
+           'whose turn: the drawing player, else the betting actor, else the player to show', got=sorted(got))
     end = ctx.sfi('_end_betting')
     # all-in detection
     ok = False
